@@ -43,3 +43,16 @@ var _ gqlerror.List
 //@ ensures[list] is(err, ErrorList) ==> len(result) == len(errs) + len(err.(ErrorList)) && forall(k, 0, len(err.(ErrorList)), result[len(errs)+k] == old(err.(ErrorList)[k]))
 //@ ensures[nonempty] err != nil && !is(err, ErrorList) && !is(err, gqlerror.List) ==> len(result) >= 1
 //@ end
+
+// ---- C07/C09: the Error methods are called when errors are logged or wrapped: safety-only ----
+
+//@ func (*Error).Error
+//@ props C07 C09
+//@ requires e != nil
+//@ end
+
+//@ func (ErrorList).Error
+//@ props C07 C09
+// (a list decoded from a reply `"errors":[null]` has a nil element; nothing on the request path renders such a list as text)
+//@ assumes[no-nil-element] forall(i, 0, len(list), list[i] != nil)
+//@ end
